@@ -34,4 +34,4 @@ Extraction "model.ml"
   RunLookups.rl_view_sends RunLookups.rl_view_peers RunLookups.rl_view_result RunLookups.rl_view_flags RunLookups.rl_view_nq RunLookups.rl_view_stopping RunLookups.rl_cfg_api
   RunLookupsSends.rls_take
   RunLookupsClosest.rlc_exact RunLookupsClosest.rlc_view_closest
-  RunMaint.rm_cfg RunMaint.rm_node RunMaint.rm_node_id RunMaint.rm_node_ip RunMaint.rm_node_port RunMaint.rm_node_failed RunMaint.rm_node_addr_view RunMaint.rm_class RunMaint.rm_boot RunMaint.rm_pass RunMaint.rm_phase_view.
+  RunMaint.rm_cfg RunMaint.rm_node RunMaint.rm_node_id RunMaint.rm_node_ip RunMaint.rm_node_port RunMaint.rm_node_failed RunMaint.rm_node_addr_view RunMaint.rm_class RunMaint.rm_boot_asked RunMaint.rm_pass RunMaint.rm_phase_view.
